@@ -975,10 +975,17 @@ class FixedTupleUnmarshaller(AbstractUnmarshaller[compat.TupleT]):
             val: The input value to unmarshal.
         """
         decoded = serdes.load(val)
-        return self.origin(
+        unmarshalled = self.origin(
             routine(v)
             for routine, v in zip(self.ordered_routines, serdes.itervalues(decoded))
         )
+        # Extra members are dropped (see above), but a fixed tuple is never short.
+        if len(unmarshalled) != len(self.ordered_routines):
+            raise ValueError(
+                f"Expected {len(self.ordered_routines)} members for {self.t!r}, "
+                f"got {len(unmarshalled)}: {val!r}"
+            )
+        return unmarshalled
 
 
 _ST = tp.TypeVar("_ST")
